@@ -565,6 +565,8 @@ def run(ctx, repo):
                         '%s: %s, and nothing turns the %s into ValueError: for some text the caller gets an exception the contract excludes'
                         % (fn.name, what, ' / '.join(fam)), "parse_hms('x:1:2:3')")
     ctx.count('operations inventoried for other exceptions', n_ops)
+    if not any(f.rule == 'R8' for f in ctx.findings):
+        ctx.ok('R8', '%d operations of str2num / parse_hms that can raise something else lie in handlers that convert it' % n_ops)
     # ---- R2
     s2n = mod.func('str2num')
     ph = mod.func('parse_hms')
